@@ -537,6 +537,13 @@ def plumbed_names(fn, m):
                 elif b in out and a not in out:
                     out.add(a)
                     grew = True
+            elif isinstance(n, ast.Assign) and len(n.targets) == 1 and isinstance(n.targets[0], ast.Name) and n.targets[0].id in out \
+                    and isinstance(n.value, ast.BinOp) and isinstance(n.value.op, ast.Add):
+                # the operands of a concatenation that makes a name tuple are name tuples
+                for x in ast.walk(n.value):
+                    if isinstance(x, ast.Name) and isinstance(x.ctx, ast.Load) and x.id not in out:
+                        out.add(x.id)
+                        grew = True
     return out
 
 
